@@ -212,12 +212,14 @@ func (w *world) startObs(cc doer, id int, tok message.Token, udp bool) {
 		}
 		n := 0
 		first := ""
+		gotFirst := make(chan struct{})
 		err := w.observe(req, func(r *pool.Message) {
 			body, _ := r.ReadBody()
 			w.mu.Lock()
 			n++
 			if n == 1 {
 				first = lp.Hex(r.Token()) + ":" + tagOf(body)
+				close(gotFirst)
 			} else {
 				w.events = append(w.events, "dflt:"+lp.Hex(r.Token())+":"+tagOf(body))
 			}
@@ -226,6 +228,12 @@ func (w *world) startObs(cc doer, id int, tok message.Token, udp bool) {
 		if err != nil {
 			c.res = fmt.Sprintf("ret:%d:%s", id, errName(err))
 			return
+		}
+		// DoObserve returns as soon as the registration is confirmed; the callback for that first notification runs on the
+		// receive loop and may still be on its way
+		select {
+		case <-gotFirst:
+		case <-ctx.Done():
 		}
 		w.mu.Lock()
 		c.res = fmt.Sprintf("ret:%d:ok:%s", id, first)
